@@ -128,6 +128,84 @@ def make_tours(states, init, edges, max_len=40, limit_edges=None, rnd=None):
     return tours, len(covered & want)
 
 
+def all_paths(states, init, edges, limit=20000, rnd=None):
+    """All maximal paths of an acyclic state graph (complete behaviours), as edge-number lists.
+    If there are more than `limit`, a random sample of `limit` maximal paths is returned (plus the exact total)."""
+    import random
+    out = collections.defaultdict(list)
+    for ei, e in enumerate(edges):
+        if e[0] != e[1]:
+            out[e[0]].append(ei)
+    memo = {}
+
+    def count(u):
+        if u in memo:
+            return memo[u]
+        memo[u] = -1  # cycle guard
+        if not out[u]:
+            memo[u] = 1
+            return 1
+        c = 0
+        for ei in out[u]:
+            k = count(edges[ei][1])
+            if k < 0:
+                raise ValueError('state graph has a cycle')
+            c += k
+        memo[u] = c
+        return c
+    sys.setrecursionlimit(100000)
+    total = sum(count(s) for s in init)
+    paths = []
+    if total <= limit:
+        def dfs(u, acc):
+            if not out[u]:
+                paths.append(list(acc))
+                return
+            for ei in out[u]:
+                acc.append(ei)
+                dfs(edges[ei][1], acc)
+                acc.pop()
+        for s in init:
+            dfs(s, [])
+    else:
+        rnd = rnd or random.Random(0)
+        seen = set()
+        tries = 0
+        while len(paths) < limit and tries < limit * 5:
+            tries += 1
+            # uniform sampling over maximal paths using the path counts
+            r = rnd.randrange(total)
+            u = None
+            for s in init:
+                if r < memo[s]:
+                    u = s
+                    break
+                r -= memo[s]
+            p = []
+            while out[u]:
+                for ei in out[u]:
+                    k = memo[edges[ei][1]]
+                    if r < k:
+                        p.append(ei)
+                        u = edges[ei][1]
+                        break
+                    r -= k
+            t = tuple(p)
+            if t not in seen:
+                seen.add(t)
+                paths.append(p)
+    return paths, total
+
+
+def build_paths(dot_path, out_path, limit=20000, rnd=None, keep_vars=None):
+    states, init, edges = load_dot(dot_path, keep_vars)
+    paths, total = all_paths(states, init, edges, limit, rnd)
+    with open(out_path, 'w') as f:
+        json.dump({"states": states, "init": init, "edges": edges, "tours": paths}, f)
+    return {"states": len(states), "edges": len(edges), "paths_total": total, "paths": len(paths),
+            "exhaustive": total == len(paths), "steps": sum(len(t) for t in paths)}
+
+
 def build(dot_path, out_path, max_len=40, limit_edges=None, rnd=None, keep_vars=None):
     states, init, edges = load_dot(dot_path, keep_vars)
     tours, ncov = make_tours(states, init, edges, max_len, limit_edges, rnd)
